@@ -284,9 +284,9 @@ theorem c04_deviation_cargo_tables :
 
 /-- **only `require`**: outside a require block, a line that does not start with `require` (replace, exclude,
     retract, module, go …) yields nothing -/
-theorem c04_go_directive_never (line : Text) (rest : List Text) (n off : Nat)
+theorem c04_go_directive_never (line : Text) (off : Nat) (rest : List (Text × Nat)) (n : Nat)
     (h : stripPrefix Sites.requireKw (trim line) = none) :
-    goLines (line :: rest) n off false = goLines rest (n + 1) (off + byteLen line + 1) false := by
+    goLines ((line, off) :: rest) n false = goLines rest (n + 1) false := by
   have hs : goSingle (trim line) = none := by unfold goSingle; rw [h]
   have hb : goBlockStart (trim line) = false := by unfold goBlockStart; rw [h]
   conv => lhs; unfold goLines
